@@ -19,6 +19,7 @@ mod c28;
 mod c29;
 mod c30;
 mod c31;
+mod c33;
 mod c34;
 mod c18;
 mod c19;
@@ -80,6 +81,7 @@ fn main() {
         "c30-replay" => c30::replay(rest),
         "c31-child" => c31::child(rest),
         "c31-drive" => c31::drive(rest),
+        "c33-run" => c33::run(rest),
         "c34-replay" => c34::replay(rest),
         "c18-run" => c18::run(rest),
         "c19-replay" => c19::replay(rest),
